@@ -106,6 +106,7 @@ impl Geometry {
         let dw = hooks::wire_delay(self.run).unwrap_or(100);
         let clip = |x: f64| x.round().clamp(-32768.0, 32767.0) as i16;
         let mut wires = Vec::new();
+        let mut chips: BTreeMap<(usize, u8), Vec<(u16, Vec<i16>)>> = BTreeMap::new();
         for k in 0..len {
             let w = (start + k) % 256;
             let pos = TpcWirePosition::try_from(w).unwrap();
@@ -121,8 +122,33 @@ impl Geometry {
             }
             let (board, ch) = self.wire_src[w];
             wires.push(WireSpec { board, ch, wave: sig.iter().map(|x| clip(bl + x / gn)).collect() });
+            // a pad cloud in the wire's column at the same time bin, so that the deconvolved wire
+            // amplitude becomes observable through an avalanche
+            let col = hooks::verif_wire_to_pad_column(w);
+            let row0 = 8 + 7 * (k % 78);
+            for (d, f) in [0.45, 1.0, 0.35].iter().enumerate() {
+                let r = row0 + d;
+                let Some(&(pboard, chip, readout)) = self.pad_src.get(&(col, r)) else { continue };
+                let ppos = TpcPadPosition { column: col.try_into().unwrap(), row: r.try_into().unwrap() };
+                let pbl = hooks::pad_baseline(self.run, ppos).unwrap_or(0) as f64;
+                let pgn = hooks::pad_gain(self.run, ppos).unwrap_or(1.0);
+                let dp = hooks::pad_delay(self.run).unwrap_or(100);
+                let mut psig = vec![0.0; samples];
+                for (i, x) in self.pad_resp.iter().enumerate() {
+                    if dp + bin + i < psig.len() {
+                        psig[dp + bin + i] += 2.0 * a * f * x;
+                    }
+                }
+                chips.entry((pboard, chip)).or_default().push((readout, psig.iter().map(|x| clip(pbl + x / pgn)).collect()));
+            }
         }
-        Spec { run: self.run, ts: rng.next() as u32, wires, pads: vec![] }
+        let mut pads = Vec::new();
+        for ((board, chip), mut sent) in chips {
+            sent.sort_by_key(|x| x.0);
+            sent.dedup_by_key(|x| x.0);
+            pads.push(PwbSpec { board, chip, req: samples as u16, sent, chunk_size: 1400 });
+        }
+        Spec { run: self.run, ts: rng.next() as u32, wires, pads }
     }
 
     pub fn new(run: u32) -> Option<Geometry> {
